@@ -177,6 +177,12 @@ func (f *Frame) specEval1(e SExpr, env *SpecEnv) Val {
 				return Val{T: smtInt(new(big.Int).Neg(c))}
 			}
 			return Val{T: fmt.Sprintf("(- %s)", v.T)}
+		case "&":
+			// &x: a pointer to the value of x (pointers are values in this model: non-nil flag + pointee)
+			if v.Ty == nil {
+				sfail("& applied to a mathematical value %s", x.X)
+			}
+			return f.mkPtr(v)
 		case "*":
 			if v.Ty == nil {
 				sfail("* applied to a non-pointer %s", x.X)
